@@ -68,6 +68,9 @@ def check_program(col, pp, cfg, prog, queries=None, draw=None):
             mag = max([programs.amount_in(world, snap[k], world.subs[si].name) for snap in eager.snapshots for k in snap] + [0.0])
             unit = programs.natural_units(draw, world.subs[si], mag)
             queries.append({'sub': si, 'timeframe': tf, 'dest': dest, 'unit': unit})
+            if dest != 'plates' and draw(st.integers(0, 2)) == 0:
+                # destinations: Iterable[Container | Plate] - a tuple, or an iterator that can be walked only once
+                queries[-1]['dest_form'] = draw(st.sampled_from(['tuple', 'iter']))
             if draw(st.integers(0, 3)) == 0 and dest != ['#unknown']:
                 # the same question again in another unit: answers must not depend on what was asked before
                 queries.append({'sub': si, 'timeframe': tf, 'dest': dest, 'unit': programs.natural_units(draw, world.subs[si], mag)})
@@ -116,7 +119,11 @@ def check_program(col, pp, cfg, prog, queries=None, draw=None):
         if dest == 'plates':
             args = dict(timeframe=q['timeframe'], unit=q['unit'])
         else:
-            args = dict(timeframe=q['timeframe'], unit=q['unit'], destinations=[rr.decl[k] for k in dkeys])
+            dlist = [rr.decl[k] for k in dkeys]
+            form = q.get('dest_form', 'list')
+            args = dict(timeframe=q['timeframe'], unit=q['unit'],
+                        destinations=tuple(dlist) if form == 'tuple' else iter(dlist) if form == 'iter' else dlist)
+            col.label(f"destinations-as:{form}")
         try:
             got = recipe.get_substance_used(world.real[q['sub']], **args)
             exc = None
